@@ -121,17 +121,17 @@ structure Tag (α : Type) where
 deriving DecidableEq, Repr
 
 /-- Collector state: the tag being read (closing?, name, finished attributes) and the attribute
-    being read (name, value so far).  All lists are kept reversed. -/
+    being read (name, "has a value", value so far).  All lists are kept reversed. -/
 structure CSt (α : Type) where
   closing : Bool := false
   name : List Nat := []
   attrs : List (List Nat × Option (List α)) := []
-  cur : Option (List Nat × Option (List α)) := none
+  cur : Option (List Nat × Bool × List α) := none
 
 def CSt.flush {α : Type} (s : CSt α) : List (List Nat × Option (List α)) :=
   match s.cur with
   | none => s.attrs
-  | some (n, v) => (n.reverse, v.map List.reverse) :: s.attrs
+  | some (n, f, v) => (n.reverse, if f then some v.reverse else none) :: s.attrs
 
 def collect {α : Type} (s : CSt α) : List (Ev α) → List (Tag α)
   | [] => []
@@ -140,16 +140,10 @@ def collect {α : Type} (s : CSt α) : List (Ev α) → List (Tag α)
     | .openTag => collect {} rest
     | .closeTag => collect { closing := true } rest
     | .nameCh c => collect { s with name := c :: s.name } rest
-    | .attrBegin => collect { s with attrs := s.flush, cur := some ([], none) } rest
-    | .attrCh c =>
-      collect { s with cur := match s.cur with | some (n, v) => some (c :: n, v) | none => some ([c], none) } rest
-    | .valBegin =>
-      collect { s with cur := match s.cur with | some (n, _) => some (n, some []) | none => some ([], some []) } rest
-    | .valCh c =>
-      collect { s with cur := match s.cur with
-                                | some (n, some v) => some (n, some (c :: v))
-                                | some (n, none) => some (n, some [c])
-                                | none => some ([], some [c]) } rest
+    | .attrBegin => collect { s with attrs := s.flush, cur := some ([], false, []) } rest
+    | .attrCh c => collect { s with cur := s.cur.map (fun x => (c :: x.1, x.2.1, x.2.2)) } rest
+    | .valBegin => collect { s with cur := s.cur.map (fun x => (x.1, true, x.2.2)) } rest
+    | .valCh c => collect { s with cur := s.cur.map (fun x => (x.1, x.2.1, c :: x.2.2)) } rest
     | .tagEnd sc =>
       { closing := s.closing, name := s.name.reverse, attrs := s.flush.reverse, selfClosing := sc } :: collect {} rest
     | .err => []
